@@ -451,8 +451,9 @@ Section Cli.
     match open_file w (op_log op) with
     | None | Some ONone => finish wr (Failed EOpen)
     | Some olog =>
-        let '((count_log, first, last), e1) :=
-          parse_opened (fun (st : nat * time * time) ev =>
+        (* the first record is remembered with a flag of its own (fix 412404b: the zero time 0001/01/01 is a date a log may hold) *)
+        let '((count_log, first_opt, last), e1) :=
+          parse_opened (fun (st : nat * option time * time) ev =>
                           match ev with
                           | EErr e => (st, true, Some (EParse (perr_message e)))
                           | ENode n =>
@@ -460,10 +461,11 @@ Section Cli.
                               match parse_date toks (header n) with
                               | Some c =>
                                   let t := time_of_civil c in
-                                  ((S cnt, if is_zero_time first then t else first, t), false, None)
+                                  ((S cnt, match first with Some _ => first | None => Some t end, t), false, None)
                               | None => ((S cnt, first, zero_time), false, None)
                               end
-                          end) olog (O, zero_time, zero_time) in
+                          end) olog (O, None, zero_time) in
+        let first := match first_opt with Some t => t | None => zero_time end in
         match e1 with
         | Some e => finish wr (Failed e)
         | None =>
